@@ -122,24 +122,64 @@ fn c16_lpc_parameters_arbitrary_bytes() {
     kani::cover!(bytes[0] >> 4 == 15);
 }
 
-//@ prop: C16
-//@ drives: parser::lpc (subframe type -> order, warm-up vector)
-//@ bound: LPC subframes whose type byte announces order 25 and 32 (legal in FLAC, above this library's maximum of 24); 1-bit warm-up samples; concrete bytes (the outcome does not depend on the sample bits)
-//@ asserts: never panics: unsupported orders must be parse errors
-//@ stubs: alloc::fmt::format -> empty string
-#[kani::proof]
-#[kani::unwind(36)]
-#[kani::stub(alloc::fmt::format, fmt_stub)]
-fn c16_lpc_order_above_maximum() {
-    let hi: bool = kani::any();
-    let order: u8 = if hi { 32 } else { 25 };
+fn lpc_order_case(order: u8) {
     let bytes: [u8; 8] = [(0x20 + order - 1) << 1, 0xA5, 0x5A, 0xFF, 0x00, 0x12, 0x34, 0x56];
     let r = lpc::<(_, nom::error::ErrorKind)>(40, 1)((&bytes[..], 0));
     if let Ok((_rest, l)) = r {
         assert!(l.order() <= 24);
         std::mem::forget(l);
     };
-    kani::cover!(hi);
+}
+
+//@ prop: C16
+//@ drives: parser::lpc (subframe type -> order, warm-up vector)
+//@ bound: an LPC subframe whose type byte announces order 25 (legal in FLAC, above this library's maximum of 24); 1-bit warm-up samples; concrete bytes (the outcome does not depend on the sample bits)
+//@ asserts: never panics: unsupported orders must be parse errors
+//@ stubs: alloc::fmt::format -> empty string
+#[kani::proof]
+#[kani::unwind(36)]
+#[kani::stub(alloc::fmt::format, fmt_stub)]
+fn c16_lpc_order_above_maximum() {
+    lpc_order_case(25);
+    kani::cover!(true);
+}
+
+//@ prop: C16
+//@ tier: thorough
+//@ drives: parser::lpc (subframe type -> order, warm-up vector)
+//@ bound: as c16_lpc_order_above_maximum with order 32 (the largest the type byte can announce)
+//@ asserts: never panics: unsupported orders must be parse errors
+//@ stubs: alloc::fmt::format -> empty string
+#[kani::proof]
+#[kani::unwind(36)]
+#[kani::stub(alloc::fmt::format, fmt_stub)]
+fn c16_lpc_order_32() {
+    lpc_order_case(32);
+    kani::cover!(true);
+}
+
+fn fixed_type_case(t: u8) {
+    let bytes: [u8; 6] = [t, 0xFF, 0xFF, 0xFF, 0xFF, 0xFF];
+    let r = fixed_lpc::<(_, nom::error::ErrorKind)>(40, 4)((&bytes[..], 0));
+    let ok = r.is_ok();
+    std::mem::forget(r);
+    assert!(!ok);
+}
+
+//@ prop: C16
+//@ drives: parser::fixed_lpc (type byte -> predictor order, warm-up vector), parser::subframe_header, parser::raw_samples
+//@ bound: the three RESERVED fixed-predictor type codes 0b001101, 0b001110, 0b001111 ("orders" 5..7; concrete per path because a symbolic order makes the warm-up container symbolic: no answer in 10 min) and the largest valid one (order 4), followed by all-ones bytes at 4 bits per sample so that the residual coding method reads as the reserved 0b11
+//@ asserts: never panics; nothing is accepted
+//@ stubs: alloc::fmt::format -> empty string
+#[kani::proof]
+#[kani::unwind(12)]
+#[kani::stub(alloc::fmt::format, fmt_stub)]
+fn c16_fixed_reserved_orders() {
+    fixed_type_case(0x0D << 1);
+    fixed_type_case(0x0E << 1);
+    fixed_type_case(0x0F << 1);
+    fixed_type_case(0x0C << 1);
+    kani::cover!(true);
 }
 
 fn residual_bytes_case<const ORDER: u8, const WARM: usize>() -> bool {
